@@ -69,7 +69,7 @@ func try(c *hc.Ctx, q *c04shared.Queue, kind string, recv crypto.Side, key crypt
 	got, err := dec.DecryptFromBuffer(ak, &bin.Buffer{Buf: append([]byte{}, frame...)})
 	line := fmt.Sprintf("dec %s %s %s %s", c04shared.SideName(recv), hc.Hex(key[:]), hc.Hex(ak.ID[:]), hc.Hex(frame))
 	c.Count("mutant." + kind)
-	c.Eval(line, mustReject)
+	c.Eval(kind+" "+c04shared.Sig(line), mustReject)
 	if err != nil {
 		c.Count("rejected-as." + c04shared.ErrTag(err))
 	}
@@ -88,12 +88,15 @@ func try(c *hc.Ctx, q *c04shared.Queue, kind string, recv crypto.Side, key crypt
 func run(c *hc.Ctx) error {
 	r := c.Rng
 	var q c04shared.Queue
-	nb := c.N(45, 4500)
+	nb := c.N(100, 4500)
 	for i := 0; i < nb; i++ {
 		n := 4 * hc.Pick(r, 0, 1, 2, 3, 4, 5, 8, 16, 33, r.Range(0, 64), r.Range(0, 300))
 		b, ok := newBase(c, n)
 		if !ok {
 			continue
+		}
+		if err := q.MaybeFlush(c); err != nil {
+			return err
 		}
 		recv := b.sender ^ 1
 		try(c, &q, "genuine", recv, b.key, b.ak, b.ct, false)
@@ -178,6 +181,9 @@ func run(c *hc.Ctx) error {
 	// way to reach the later error returns; same nil-result monitor
 	for i := c.N(1500, 50000); i > 0; i-- {
 		c04shared.CraftedFrame(c, &q, "C05")
+		if err := q.MaybeFlush(c); err != nil {
+			return err
+		}
 	}
 	if err := q.Flush(c); err != nil {
 		return err
